@@ -20,13 +20,14 @@ impl Driver for RegistryRemove {
         let n = 1 + rng.next() % 5;
         let ds: Vec<String> = (0..n).map(|_| rng.amount(1_000_000).to_string()).collect();
         let can = match rng.next() % 3 { 0 => "full", 1 => "none", _ => "partial" };
-        json!({"delegations": ds, "remove": (rng.next() % n).to_string(), "can_redelegate": can})
+        json!({"delegations": ds, "remove": (rng.next() % n).to_string(), "can_redelegate": can, "upper": rng.next() % 4 == 0})
     }
     fn run(&self, input: &Value) -> Outcome {
         let ds: Vec<u128> = input["delegations"].as_array().unwrap().iter().map(u).collect();
         let rm = u(&input["remove"]) as usize;
         let can = input["can_redelegate"].as_str().unwrap();
-        let names: Vec<String> = (0..ds.len()).map(|i| format!("validator{}", i)).collect();
+        let upper = input["upper"].as_bool().unwrap_or(false);
+        let names: Vec<String> = (0..ds.len()).map(|i| if upper { format!("VALIDATOR{}", i) } else { format!("validator{}", i) }).collect();
         let mut q: MockQuerier<Empty> = MockQuerier::new(&[(MOCK_CONTRACT_ADDR, &[])]);
         let vals: Vec<SdkValidator> = names.iter().map(|n| SdkValidator { address: n.clone(), commission: Decimal::zero(), max_commission: Decimal::one(), max_change_rate: Decimal::one() }).collect();
         let fds: Vec<FullDelegation> = names.iter().zip(ds.iter()).filter(|(_, d)| **d > 0).enumerate().map(|(_, (n, d))| {
@@ -43,7 +44,10 @@ impl Driver for RegistryRemove {
         if ds.len() == 1 { c.insert("rv#C13.never_removes_the_last_validator".to_string(), res.is_err()); }
         if let Ok(r) = res {
             // registry content after the call
-            let still = basset_sei_validators_registry::registry::REGISTRY.has(&deps.storage, names[rm].as_bytes());
+            // through the real query: the removed validator is no longer offered for delegation
+            let listed = basset_sei_validators_registry::contract::query(deps.as_ref(), mock_env(), basset_sei_validators_registry::msg::QueryMsg::GetValidatorsForDelegation {})
+                .ok().and_then(|b| from_json::<Vec<basset_sei_validators_registry::registry::ValidatorResponse>>(&b).ok()).map(|v| v.iter().any(|x| x.address == names[rm])).unwrap_or(true);
+            let still = listed || basset_sei_validators_registry::registry::REGISTRY.has(&deps.storage, names[rm].as_bytes());
             c.insert("rv#C13.removed_and_not_last".to_string(), !still);
             let d = ds[rm];
             let full = d > 0 && (can == "full");
